@@ -295,7 +295,8 @@ void build_stmt(Env &c, SplitMix &g, SchindelhauerTMCG &tm, const std::vector<si
 		s.clear();
 		for (size_t i = 0; i < n; i++) {
 			VTMF_Card cd; VTMF_CardSecret cs;
-			if (g.below(5) == 0) tm.TMCG_CreateOpenCard(cd, c.A.get(), g.below(64)); else tm.TMCG_CreatePrivateCard(cd, cs, c.A.get(), g.below(64));
+			if (g.below(5) == 0) tm.TMCG_CreateOpenCard(cd, c.A.get(), i); else   // open cards pairwise different: a swap of equal cards is no false statement
+			 tm.TMCG_CreatePrivateCard(cd, cs, c.A.get(), g.below(64));
 			s.push(cd);
 		}
 	}
